@@ -138,6 +138,10 @@ def run(ctx: Ctx) -> None:
     xa = [n_ for n_ in walk_local(ac) if isinstance(n_, ast.Assign) and dotted(n_.targets[0]) == "accepts" and isinstance(n_.value, ast.Call)]
     ok = len(xa) == 1 and norm(xa[0].value) == "server_extensions_handshake(self.extensions, extensions)" and guard_atoms(xa[0]) == {("self.extensions is not None", True)}
     ctx.check("C11.R5", wa, "extensions negotiated from the client's offer", ok, "extension negotiation changed", xa[0] if xa else ac)
+    ext_arg = xa[0].value.args[1] if xa and len(xa[0].value.args) > 1 else None
+    pv = provenance(ext_arg, ac) if ext_arg is not None else None
+    fresh = pv is not None and "PerMessageDeflate()" in pv.ops and not [l_ for l_ in pv.leaves if not l_.startswith("const:")]
+    ctx.check("C11.R5", wa, "the permessage-deflate extension object is created for this handshake (not shared)", fresh, f"the extension objects offered to wsproto come from {pv}: wsproto extension objects carry per-connection state (enabled flag, zlib contexts) - shared between handshakes, a client that never offered deflate gets compressed frames", ext_arg if ext_arg is not None else ac)
     sp = [c for c in calls(ac) if call_name(c) == "headers.append" and "sec-websocket-protocol" in norm(c)]
     ok = len(sp) == 1 and norm(arg(sp[0], 0)) == "(b'sec-websocket-protocol', subprotocol.encode())"
     ctx.check("C11.R5", wa, "selected subprotocol echoed", ok, "the chosen subprotocol must be echoed", sp[0] if sp else ac)
